@@ -338,9 +338,11 @@ fn run_case(target: &str, seed: u64, len: usize) -> (String, String) {
                 let (sa, _) = src(a.clone());
                 let mut s = sa.into_interleaved_samples();
                 for i in 0..k { rec!(s.next_sample(), Some(a[i / 2][i % 2])); }
+                let cl = s.clone();           // a clone taken mid-frame keeps the frame in progress
                 let rest: Vec<i16> = s.into_iter().collect();
                 let want: Vec<i16> = (k..2 * a.len()).map(|i| a[i / 2][i % 2]).collect();
-                rec!(rest, want);
+                rec!(rest, want.clone());
+                rec!(cl.into_iter().collect::<Vec<i16>>(), want);
             }
         }
         "Buffered::next" | "Buffered::is_exhausted" | "Signal::buffered" | "Buffered::next_frames" | "BufferedFrames::next" | "Buffered::into_parts" => {
@@ -583,6 +585,23 @@ fn run_case(target: &str, seed: u64, len: usize) -> (String, String) {
             drive!(|ph: signal::Phase<_>| ph.saw(), |p: f64| 1.0 - 2.0 * p);
             drive!(|ph: signal::Phase<_>| ph.square(), |p: f64| if p < 0.5 { 1.0 } else { -1.0 });
             drive!(|ph: signal::Phase<_>| ph.sine(), |p: f64| (2.0 * std::f64::consts::PI * p).sin());
+        }
+        "Rectangle::window" | "Hann::window" => {
+            use dasp_window::{Hann, Rectangle, Window as WF};
+            // the rectangle window is 1 EVERYWHERE (whatever the phase, also outside [0, 1)), in every sample format
+            for &p in &[0.0f64, 0.25, 0.5, 0.999, 1.0, -0.25, 2.0, 1.0e9, f64::INFINITY] {
+                rec!(<Rectangle as WF<f64>>::window(p), 1.0f64);
+                rec!(<Rectangle as WF<f32>>::window(p as f32), 1.0f32);
+            }
+            rec!(<Rectangle as WF<i16>>::window(-123), i16::MAX);
+            // Hann: 0.5 (1 - cos(2 pi p)) within [0, 1], 0 at both ends, 1 at 0.5, symmetric
+            for k in 0..=16 {
+                let p = k as f64 / 16.0;
+                let h = <Hann as WF<f64>>::window(p);
+                rec!((h - 0.5 * (1.0 - (2.0 * std::f64::consts::PI * p).cos())).abs() < 1e-12 && h >= -1e-12 && h <= 1.0 + 1e-12, true);
+                rec!((h - <Hann as WF<f64>>::window(1.0 - p)).abs() < 1e-12, true);
+            }
+            rec!(<Hann as WF<f64>>::window(0.5), 1.0f64);
         }
         "Window::new" | "Window::next" | "Windowed::next" => {
             use dasp_signal::window::{Window, Windower};
